@@ -2381,11 +2381,16 @@ class Parameters:
             if g.name not in params:
                 params.append(g.name)
 
-        if dynamic_dep is None:
-            subparams, callback, what = None, None, param_dep.what
-        else:
-            subparams, callback, what = self_._resolve_dynamic_deps(
-                obj, dynamic_dep, param_dep, attribute)
+        subparams, callback, what = None, None, param_dep.what
+        if dynamic_dep is not None:
+            # Several dependencies can pass through this parameter ('a.x' and
+            # 'a.y' through 'a'): a replaced sub-object is compared on all of them
+            for ddep, pdep in group:
+                root = ddep.spec.split('.')[0]
+                sps, cb, what = self_._resolve_dynamic_deps(obj, ddep, pdep, root)
+                callback = callback or cb
+                if sps is not None:
+                    subparams = (subparams or []) + [sp for sp in sps if sp not in (subparams or [])]
 
         mcaller = _m_caller(obj, name, what, subparams, callback)
         return dep_obj.param._watch(
